@@ -96,6 +96,8 @@ type Cfg struct {
 	NFuncs   int
 	NFiles   int
 	PlainPct int // share of plain (non-generator) consumer functions
+	Prefix   string // prefix of generated function and file names
+	NoHelp   bool   // do not emit the helper declarations (another program of the same package has them)
 }
 
 type G struct {
@@ -811,7 +813,7 @@ func (c *fctx) yieldFromX(allowDecl bool) []*S {
 
 // ---------------------------------------------------------------------------------------
 
-const pickDecl = `func pick(n int) any {
+const PickDecl = `func pick(n int) any {
 	switch n % 3 {
 	case 0:
 		return "s"
@@ -823,7 +825,7 @@ const pickDecl = `func pick(n int) any {
 
 // Base weights per profile.
 func baseCfg(profile string) Cfg {
-	c := Cfg{Profile: profile, MaxDepth: 4, MaxStmts: 22, EffPct: 25, DeadPct: 4, ElsePct: 50, Quar: map[string]bool{"A1": true, "A2": true, "A16": true}, NFuncs: 60, NFiles: 3}
+	c := Cfg{Profile: profile, MaxDepth: 4, MaxStmts: 22, EffPct: 25, DeadPct: 4, ElsePct: 50, Quar: map[string]bool{"A1": true, "A2": true}, NFuncs: 60, NFiles: 3}
 	c.W = map[SK]int{SDecl: 6, SAssign: 6, SIncDec: 3, SEff: 8, SYield: 14, SBlock: 3, SIf: 9, SSwitch: 6, STypeSwitch: 3, SFor: 9,
 		SBreak: 5, SContinue: 4, SReturn: 2}
 	c.ForForm = [5]int{5, 3, 3, 1, 3}
@@ -906,7 +908,7 @@ func GenProg(r *prng.R, cfg Cfg, pkg string) *Prog {
 	g.prog.SeqImported = r.Chance(1, 6)
 	nf := cfg.NFiles
 	for i := 0; i < nf; i++ {
-		g.prog.Files = append(g.prog.Files, &File{Name: fmt.Sprintf("gen_%d.go", i), UsesAPI: true})
+		g.prog.Files = append(g.prog.Files, &File{Name: fmt.Sprintf("%sgen_%d.go", cfg.Prefix, i), UsesAPI: true})
 	}
 	for i := 0; i < cfg.NFuncs; i++ {
 		var f *Func
@@ -932,13 +934,15 @@ func GenProg(r *prng.R, cfg Cfg, pkg string) *Prog {
 		file.Funcs = append(file.Funcs, f)
 		g.funcs = append(g.funcs, f)
 	}
-	g.prog.Files[0].Decls = append(g.prog.Files[0].Decls, pickDecl, helperDecls)
+	if !cfg.NoHelp {
+		g.prog.Files[0].Decls = append(g.prog.Files[0].Decls, PickDecl, HelperDecls)
+	}
 	if cfg.Profile == "consumer" {
 		src, ref, fs := consumerTemplates(r, g.nextTag)
 		tf := &File{Name: "gen_types.go", UsesAPI: true, Decls: src, RefDecls: ref, Extern: fs}
 		g.prog.Files = append(g.prog.Files, tf)
 	}
-	if cfg.Profile == "all" || cfg.Profile == "bystander" {
+	if (cfg.Profile == "all" || cfg.Profile == "bystander") && !cfg.NoHelp {
 		imps, src, ref, fs := optTemplates(r, g.nextTag)
 		tf := &File{Name: "gen_opt.go", UsesAPI: true, Decls: src, RefDecls: ref, Extern: fs, Imports: imps}
 		g.prog.Files = append(g.prog.Files, tf)
@@ -1037,7 +1041,7 @@ func (g *G) genPlain(i int) *Func {
 func (g *G) genFunc(i int) *Func {
 	r := g.r
 	g.feat = map[string]bool{}
-	f := &Func{ID: i, Name: fmt.Sprintf("G%d", i), Gen: true, Elem: "int", Named: r.Chance(1, 4)}
+	f := &Func{ID: i, Name: fmt.Sprintf("%sG%d", g.cfg.Prefix, i), Gen: true, Elem: "int", Named: r.Chance(1, 4)}
 	np := r.Intn(3)
 	sc := (&scope{names: map[string]vkind{}})
 	for p := 0; p < np; p++ {
